@@ -30,7 +30,7 @@ EDGE_SETTINGS = ["attribute::", "attribute::p:q", "attribute::1a", "attribute::a
 EDGE_NAMESPACES = ["foo=", 'foo=""', 'ok="http://ok.example" bad=', "=http://x", 'a="http://a" a="http://b"', 'xmlns="http://example.com/x"',
                    'xml="http://example.com/x"', 'foo="http://www.w3.org/2000/xmlns/"', 'foo="http://www.w3.org/XML/1998/namespace"',
                    'q="http://example.org/ns?version=1"', 'a="http://a.example/<b>"', 'a="http://a.example/&amp;"', "1a=http://x.example", "a:b=http://x.example"]
-EDGE_NAMES = ["foo:q1", "und:x", "odk:q", "jr:n", "a:b", "xmlns:foo", "xml:foo", "h:html", "orx:meta", ":x", "x:", "a\n"]
+EDGE_NAMES = ["foo:q1", "und:x", "odk:q", "jr:n", "a:b", "xmlns:foo", "xml:foo", "h:html", "orx:meta", ":x", "x:", "a\n", "L×l", "m÷2", "a·b", "x‿y", "q·", "̀a", "a‿"]
 
 
 @st.composite
